@@ -19,7 +19,7 @@ var commonAssumptions = []string{
 var propSpecs = []PropSpec{
 	{
 		ID:          "C01",
-		Rules:       []string{"C01.NIL", "C01.EXH", "C01.TA", "C01.NILMAP", "C01.PIPE", "C01.EXIT", "C01.UNSAFE", "C01.NILELEM"},
+		Rules:       []string{"C01.NIL", "C01.EXH", "C01.TA", "C01.NILMAP", "C01.PIPE", "C01.EXIT", "C01.UNSAFE", "C01.NILELEM", "C01.LOOP", "C01.REC"},
 		Explanation: "Decides necessary conditions for crash freedom in actionlint's own code: no use of a value on a path where the code itself tested it to be nil (C01.NIL).",
 		NotDecided:  "panics or hangs inside third-party libraries; stack exhaustion; general index/slice bounds; wall-clock bounds",
 		Assumptions: commonAssumptions,
